@@ -334,8 +334,52 @@ def run_json_model(ctx):
                      'validator\'s verdict); the theorems of Props/C14Json.lean are about that model')
 
 
+RAW_TOKENS = [b'\xff\xfe', b'\xff', b'K\xf6\xf6ln', b'K\xf6ln', b'\xe2\x82', b'\xe2', b'\xef\xbf\xbd', b'a\xc0\x80b', b'\xf4\x90\x80\x80', b'\xed\xa0\x80\xed\xb0\x80']
+
+
+def raw_byte_worlds():
+    """documents whose strings hold bytes that are not UTF-8 (Latin-1 text, binary ids; the validator accepts them): the
+    string tokens are stored byte for byte, so two documents that differ only there are stored differently and the
+    second one is reported against the first"""
+    import suites
+    worlds = []
+    n = 0
+    for kind in ('json', 'sajson'):
+        for a in RAW_TOKENS:
+            for b in RAW_TOKENS:
+                if a == b:
+                    continue
+                n += 1
+                if n % 3 and kind == 'sajson':
+                    continue
+                w = World('c14-raw-%d' % n)
+                w.add(mode_line(False, ''))
+                w.add(cfg_line(1, 'snaps', 'f' if kind == 'json' else None, None, 'none', 'none'))
+                da = b'{"id": "' + a + b'", "n": [1, "' + a + b'"]}'
+                db = b'{"id": "' + b + b'", "n": [1, "' + a + b'"]}'
+                w.add('begin 1 %s' % hx(b'TestRaw'))
+                w.add('%s 1 1 %s %s' % (kind, 'b' if n % 2 else 's', hx(da)))
+                w.add('end 1')
+                w.add('begin 2 %s' % hx(b'TestRaw'))
+                w.add('%s 1 2 %s %s' % (kind, 's' if n % 2 else 'b', hx(db)), ('a-different-document-is-reported', suites.exp_one_error_no_write))
+                w.add('end 2')
+
+                def stored(line, raw, ww, a=a):
+                    fs = parse_fs(raw)
+                    texts = [c for p_, c in fs.items() if b'.snap' in p_]
+                    if len(texts) != 1:
+                        return 'expected one snapshot file, found %d' % len(texts)
+                    if texts[0].count(b'"' + a + b'"') != 2:
+                        return 'the string tokens are not stored byte for byte: %r' % texts[0][:120]
+                    return None
+                w.add('fsdump', ('string-bytes-stored-verbatim', stored))
+                worlds.append(w)
+    return worlds
+
+
 def run(ctx):
     run_json_model(ctx)
+    run_suite(ctx, 'json.raw-bytes', raw_byte_worlds(), known=None)
     g = Gen(ctx.seed * 1000003 + 14)
     n = 300 if ctx.tier == 'quick' else 8000
     worlds = [make_world(g, 'c14-%d' % i) for i in range(n)]
